@@ -164,7 +164,7 @@ def parseFFault (s : String) : Option (Option FFault) :=
 
 /-- the bytes that stand for a config: its number and every flag that is part of its JSON text -/
 def cfgBytes (n : String) (flags : List Char) : Bytes :=
-  str (n ++ String.ofList (flags.filter (· != 'f')))
+  if flags.contains 'z' then str "null" else str (n ++ String.ofList (flags.filter (· != 'f')))
 
 def parseAEvent (s : String) : Option AEvent :=
   if s == "R" then some .restart else
@@ -172,7 +172,8 @@ def parseAEvent (s : String) : Option AEvent :=
   | [ln, flags, fault] =>
     match ln.toList, flags.toList, parseFFault fault with
     | 'L' :: num, p :: rest, some ft =>
-      if num.isEmpty || !num.all Char.isDigit || !isPersistFlag p || !rest.all isOtherFlag || !allDistinct rest then none else
+      if num.isEmpty || !num.all Char.isDigit || !isPersistFlag p || !rest.all isOtherFlag || !allDistinct rest
+          || (rest.contains 'z' && (rest.contains 'x' || rest.contains 'y' || rest.contains 'j' || rest.contains 'i')) then none else
       some (.load
         { cfg := cfgBytes (String.ofList num) (p :: rest)
           force := rest.contains 'f'
@@ -193,9 +194,18 @@ def asOut (sty : Style) : List AEvent → AState → List String
   | [], _ => []
   | e :: es, a => aEventOut sty e a :: asOut sty es (e.step sty a)
 
+/-- at most one fault per process life (between two `R`): the harness injects a single fault
+    into a traced process -/
+def oneFaultPerLife : List AEvent → Nat → Bool
+  | [], _ => true
+  | .restart :: es, _ => oneFaultPerLife es 0
+  | .load _ none :: es, n => oneFaultPerLife es n
+  | .load _ (some _) :: es, n => n == 0 && oneFaultPerLife es 1
+
 def handleAS (hist : String) : String :=
   match (hist.splitOn ";").mapM parseAEvent with
-  | some evs => " ".intercalate (asOut codeStyle evs ⟨none, ⟨none, none⟩⟩)
+  | some evs =>
+    if oneFaultPerLife evs 0 then " ".intercalate (asOut codeStyle evs ⟨none, ⟨none, none⟩⟩) else "bad-op"
   | none => "bad-op"
 
 def handle : List String → String
